@@ -128,8 +128,12 @@ struct Handle {
     rec_len: usize,
     field_lists: Vec<Vec<(usize, String)>>,
     current_fields: Option<usize>,
-    /// records PUT in this session: number -> bytes
+    /// records PUT through this file (also before a CLOSE and a second OPEN with the
+    /// same record length): number -> bytes
     records: BTreeMap<i64, Vec<u8>>,
+    /// the file held records the model does not know (it existed before the program, or
+    /// was written under another record length)
+    prior_unknown: bool,
     /// variables read from file keep a provenance tag for classification
     dev: DevState,
 }
@@ -214,6 +218,8 @@ pub struct Model<'a> {
     stdin_pos: usize,
     stdin_known: bool,
     random_names: std::collections::BTreeSet<String>,
+    /// RANDOM files closed by this program: name -> (record length, records, unknown rest)
+    random_saved: HashMap<String, (usize, BTreeMap<i64, Vec<u8>>, bool)>,
     static_frames: HashMap<usize, Frame>,
     pub report: ModelReport,
     step_cap: u64,
@@ -290,6 +296,7 @@ impl<'a> Model<'a> {
             stdin_pos: 0,
             stdin_known: true,
             random_names: Default::default(),
+            random_saved: HashMap::new(),
             static_frames: HashMap::new(),
             report: ModelReport::default(),
             step_cap: STEP_CAP,
@@ -1193,13 +1200,16 @@ impl<'a> Model<'a> {
                     return r;
                 }
                 if hs.is_empty() {
-                    self.handles.clear();
+                    let all: Vec<i32> = self.handles.keys().cloned().collect();
+                    for h in all {
+                        self.drop_handle(h);
+                    }
                 } else {
                     for h in hs {
                         if !(1..=255).contains(h) {
                             return Ok(Err(Failure { code: Some(52) }));
                         }
-                        self.handles.remove(h);
+                        self.drop_handle(*h);
                     }
                 }
                 Ok(Ok(Flow::Next))
@@ -1220,6 +1230,7 @@ impl<'a> Model<'a> {
                     return r;
                 }
                 if self.store.remove(name).is_some() {
+                    self.random_saved.remove(name);
                     Ok(Ok(Flow::Next))
                 } else if self.dirs.iter().any(|d| d == name) {
                     Ok(Err(Failure { code: None }))
@@ -1591,7 +1602,8 @@ impl<'a> Model<'a> {
                     for b in &a {
                         if *b == b'\r' || *b == b'\n' {
                             *c = 0;
-                        } else {
+                        } else if (*b & 0xC0) != 0x80 {
+                            // a column is a character: continuation bytes do not count
                             *c += 1;
                         }
                     }
@@ -1990,7 +2002,7 @@ impl<'a> Model<'a> {
                             }
                             _ => Self::render_number(&v).alts[0].clone(),
                         };
-                        col += bytes.len();
+                        col += bytes.iter().filter(|b| (**b & 0xC0) != 0x80).count();
                         expected.extend_from_slice(&bytes);
                     }
                     PItem::Semi => trailing_sep = true,
@@ -2059,7 +2071,7 @@ impl<'a> Model<'a> {
                 for b in &got {
                     if *b == b'\r' || *b == b'\n' {
                         c = 0;
-                    } else {
+                    } else if (*b & 0xC0) != 0x80 {
                         c += 1;
                     }
                 }
@@ -2199,7 +2211,7 @@ impl<'a> Model<'a> {
                     self.store.insert(name.to_string(), vec![]);
                 }
                 if mode == Mode::Random {
-                    // contents across reopen are unspecified by the property
+                    // the byte content is only judged through GET
                     self.store.insert(name.to_string(), vec![]);
                 }
                 if mode == Mode::Append && exists {
@@ -2236,6 +2248,19 @@ impl<'a> Model<'a> {
             }
         }
         self.opens += 1;
+        let rec_len_new = len.unwrap_or(0).max(0) as usize;
+        let (records, prior_unknown) = if mode == Mode::Random {
+            match self.random_saved.get(name).cloned() {
+                Some((rl, recs, pu)) if rl == rec_len_new => {
+                    self.probe("random_file_opened_again");
+                    (recs, pu)
+                }
+                Some(_) => (BTreeMap::new(), true),
+                None => (BTreeMap::new(), exists),
+            }
+        } else {
+            (BTreeMap::new(), false)
+        };
         self.handles.insert(
             handle,
             Handle {
@@ -2248,7 +2273,8 @@ impl<'a> Model<'a> {
                 rec_len: len.unwrap_or(0).max(0) as usize,
                 field_lists: vec![],
                 current_fields: None,
-                records: BTreeMap::new(),
+                records,
+                prior_unknown,
                 dev: DevState {
                     col: Some(0),
                     ..Default::default()
@@ -2415,6 +2441,16 @@ impl<'a> Model<'a> {
         }
     }
 
+    /// CLOSE of one handle: the records of a RANDOM file stay in the file.
+    fn drop_handle(&mut self, h: i32) {
+        if let Some(hd) = self.handles.remove(&h) {
+            if hd.mode == Mode::Random {
+                self.random_saved
+                    .insert(hd.name.clone(), (hd.rec_len, hd.records, hd.prior_unknown));
+            }
+        }
+    }
+
     fn exec_put(
         &mut self,
         s: &'a Stmt,
@@ -2480,7 +2516,8 @@ impl<'a> Model<'a> {
                 h.field_lists.clone(),
                 h.rec_len,
                 h.records.get(&(rec as i64)).cloned(),
-                h.records.contains_key(&-(rec as i64)),
+                h.records.contains_key(&-(rec as i64))
+                    || (h.prior_unknown && !h.records.contains_key(&(rec as i64))),
             ),
         };
         if rec <= 0 || rec_len == 0 {
@@ -2490,7 +2527,18 @@ impl<'a> Model<'a> {
             return r;
         }
         if unknown {
-            return Err(Stop::Early("GET of a record whose PUT was cut by a fault".into()));
+            return Err(Stop::Early(
+                "GET of a record whose PUT was cut by a fault or that the model never saw".into(),
+            ));
+        }
+        if record.is_some()
+            && self
+                .random_saved
+                .get(&self.handles[&handle].name)
+                .map(|(_, r, _)| r.contains_key(&(rec as i64)))
+                .unwrap_or(false)
+        {
+            self.probe("get_of_record_put_before_close");
         }
         // a record never PUT reads as NUL bytes
         let record = record.unwrap_or_default();
